@@ -23,6 +23,9 @@ def dialects():
     return [("sql", AstToSqlVisitor), ("sqlite", AstToSqliteSqlVisitor), ("athena", AstToAthenaSqlVisitor)]
 
 
+_VIS = {}
+
+
 def translate(V, alias, text):
     from odata_query import exceptions as ex
     try:
@@ -30,7 +33,9 @@ def translate(V, alias, text):
     except ex.ODataException as e:
         return ("rejected", type(e).__name__)
     try:
-        out = V(alias).visit(node)
+        if (V, alias) not in _VIS:          # one reused visitor instance per dialect and alias
+            _VIS[(V, alias)] = V(alias)
+        out = _VIS[(V, alias)].visit(node)
     except ex.ODataException as e:
         return ("refused", type(e).__name__)
     except Exception as e:  # noqa
